@@ -13,6 +13,7 @@ import (
 	"google.golang.org/grpc/codes"
 	"google.golang.org/grpc/status"
 	"google.golang.org/protobuf/proto"
+	"google.golang.org/protobuf/types/known/fieldmaskpb"
 	"pgregory.net/rapid"
 
 	"github.com/smart-core-os/sc-api/go/traits"
@@ -670,7 +671,37 @@ func TestPublicationVersions(t *testing.T) {
 		for i := 0; i < rapid.IntRange(1, 12).Draw(t, "steps"); i++ {
 			before, _ := m.GetPublication("p")
 			before = proto.Clone(before).(*traits.Publication)
-			switch rapid.SampledFrom([]string{"update", "update-stale", "ack", "ack-stale", "ack-again-allowed"}).Draw(t, "op") {
+			switch rapid.SampledFrom([]string{"update", "update-masked", "update-stale", "ack", "ack-stale", "ack-again-allowed"}).Draw(t, "op") {
+			case "update-masked":
+				// only the body is written (update_mask=["body"]); media type and audience stay as they are
+				c := cur
+				c.body = rapid.SampledFrom([]string{"b1", "b2", "b3"}).Draw(t, "maskedBody")
+				c0 := clk.peek()
+				res, err := srv.UpdatePublication(ctx, &traits.UpdatePublicationRequest{Name: "n", Publication: &traits.Publication{Id: "p", Body: []byte(c.body)},
+					UpdateMask: &fieldmaskpb.FieldMask{Paths: []string{"body"}}, Version: before.Version})
+				hist = append(hist, fmt.Sprintf("update-masked(body=%s)", c.body))
+				if err != nil {
+					t.Fatalf("masked UpdatePublication with the current version failed: %v\nhistory: %s", err, strings.Join(hist, " "))
+				}
+				if string(res.Body) != c.body || res.MediaType != cur.media || res.GetAudience().GetName() != cur.aud {
+					t.Fatalf("masked update of the body gave %v, want body %q with media type %q and audience %q kept\nhistory: %s", res, c.body, cur.media, cur.aud, strings.Join(hist, " "))
+				}
+				if v, ok := versionOf[c]; ok && v != res.Version {
+					t.Fatalf("same content %v got version %q before and %q now: the version must be a function of the content\nhistory: %s", c, v, res.Version, strings.Join(hist, " "))
+				}
+				for oc, ov := range versionOf {
+					if oc != c && ov == res.Version {
+						t.Fatalf("different contents %v and %v share version %q\nhistory: %s", oc, c, ov, strings.Join(hist, " "))
+					}
+				}
+				versionOf[c] = res.Version
+				if c != cur && (res.PublishTime == nil || tickOf(res.PublishTime.AsTime()) <= c0) {
+					t.Fatalf("content changed but publish time %v is not from this update (clock was at %d before)", res.PublishTime, c0)
+				}
+				if res.GetAudience().GetReceipt() != traits.Publication_Audience_NO_SIGNAL || res.GetAudience().GetReceiptTime() != nil {
+					t.Fatalf("a masked update published %q but kept the acknowledgement of the previous version: %v\nhistory: %s", res.Version, res.Audience, strings.Join(hist, " "))
+				}
+				cur, acked = c, false
 			case "update":
 				c := gen()
 				c0 := clk.peek()
